@@ -6,8 +6,10 @@ mod gen;
 mod minimise;
 mod model;
 mod ringh;
+mod ringn;
 mod rng;
 mod scenario;
+mod segment;
 mod stack;
 mod wire;
 
